@@ -6,15 +6,13 @@ import WsProofs.Lemmas.TieWrite
 `src/protocol/mod.rs` on every run) is extensionally equal to the hand-written model
 (`WsModel/Context.lean`), method by method.
 
-Two statements differ from the first draft, for the same reason.  The generated
-`check_connection_reset` assigns `Terminated` whenever the *translated* result is
-`ConnectionClosed`; the hand model only when it translated `Io(ConnectionReset)` itself.  They
-differ on `r = Err(ConnectionClosed)` in a non-terminated state
-(`checkConnectionReset_counterexample` in `Lemmas/TieWrite.lean`), so `Tie_checkConnectionReset`
-carries the hypothesis that this input does not occur, and `Tie_resCheckConnectionReset` is the
-pure fact about the `Result` translation.  The two callers pass the result of the frame codec,
-which never is `ConnectionClosed` (`codec_bufferFrame_ne_cc`, `codec_readFrame_ne_cc`), so
-everything downstream holds unconditionally. -/
+`check_connection_reset` first translates the result (`Tie_resCheckConnectionReset` is the pure
+fact about the `Result` translation) and then assigns `Terminated` whenever the *translated*
+result is `ConnectionClosed` — also when the input already was `ConnectionClosed`.  The hand
+model does exactly the same, so `Tie_checkConnectionReset` holds for every input, without any
+side condition.  (The two callers pass the result of the frame codec, which never is
+`ConnectionClosed`: `codec_bufferFrame_ne_cc`, `codec_readFrame_ne_cc` in
+`Lemmas/EndpointBasic.lean`.) -/
 namespace WsProofs.Tie
 open WsModel WsModel.Gen WsModel.GenCtx
 
@@ -29,10 +27,9 @@ theorem Tie_setAdditional (add : Frame) (w : World) :
     GenCtx.setAdditional add w = (w.setAdditional add, .ok ()) :=
   setAdditional_tie add w
 
-theorem Tie_checkConnectionReset {α : Type} (r : Res α) (w : World)
-    (h : r = .err .connectionClosed → w.c.state = .terminated) :
+theorem Tie_checkConnectionReset {α : Type} (r : Res α) (w : World) :
     GenCtx.checkConnectionReset r w = w.checkConnectionReset r :=
-  checkConnectionReset_tie r w h
+  checkConnectionReset_tie r w
 
 theorem Tie_bufferFrame (f : Frame) (w : World) : GenCtx.bufferFrame f w = w.bufferFrame f :=
   bufferFrame_tie f w
